@@ -114,7 +114,8 @@ SRC_KW = {"Cuboid": ({"dimension": (1, 2, 3)}, {"polarization": (1, 2, 3)}), "Cy
 
 COLL_ATTRS = ("children", "sources", "sensors", "collections")
 JUNK = ["one-junk-entry", "junk-last", "junk-first", "bare-int", "none", "string", "self", "ancestor", "duplicate", "nested-junk", "object", "dict",
-        "steal-then-junk", "sub-then-self", "valid", "valid-empty", "valid-steal", "wrong-type-only"]
+        "steal-then-junk", "sub-then-self", "valid", "valid-empty", "valid-steal", "wrong-type-only", "bare-object", "bare-self", "wrapped-twice", "nested-valid",
+        "current-children", "two-lists", "deep-junk", "tuple-of-one-list"]
 
 
 def collset_world(magpy):
@@ -141,14 +142,81 @@ def collset_state(w):
     return st
 
 
+# names of the world's objects, their identity number in the model and their kind seen from the collection `c`
+COLL_IDS = {"s5": (0, "s"), "x5": (1, "e"), "k": (2, "c"), "s4": (3, "s"), "x4": (4, "e"), "o": (5, "c"), "sub": (6, "c"), "c": (7, "A"), "p": (8, "A"),
+            "s1": (9, "s"), "x1": (10, "e"), "s3": (11, "s")}
+
+
+def O(name):
+    return ("O", name)
+
+
+def J():
+    return ("J",)
+
+
+def collset_tree(junk, attr):
+    """the assigned value as a tree: ("O", object name) | ("J",) | ("L", [trees])"""
+    good = {"children": [O("s5"), O("x5"), O("k")], "sources": [O("s5")], "sensors": [O("x5")], "collections": [O("k")]}[attr]
+    Lt = lambda xs: ("L", list(xs))
+    return {"one-junk-entry": Lt([J()]), "junk-last": Lt(good + [J()]), "junk-first": Lt([J()] + good), "bare-int": J(), "none": J(), "string": J(),
+            "self": Lt(good + [O("c")]), "ancestor": Lt(good + [O("p")]), "duplicate": Lt(good + good[:1]), "nested-junk": Lt([Lt(good), Lt([good[0], J()])]), "object": J(),
+            "dict": J(), "steal-then-junk": Lt([O("s4"), O("x4"), O("o"), J()]), "sub-then-self": Lt([O("sub"), O("c")]), "valid": Lt(good),
+            "valid-empty": Lt([]), "valid-steal": Lt([O("s4"), O("x4")]) if attr == "children" else Lt(good),
+            "wrong-type-only": Lt({"children": good, "sources": [O("x5")], "sensors": [O("s5")], "collections": [O("s5"), O("x5")]}[attr]),
+            "bare-object": good[0], "bare-self": O("c"), "wrapped-twice": Lt([Lt(good)]), "nested-valid": Lt([Lt(good[:1]), Lt([O("o"), O("sub")])]),
+            "current-children": Lt([O("sub"), O("s1"), O("x1")]), "two-lists": Lt([Lt(good), Lt([O("o")])]), "deep-junk": Lt([Lt([Lt([O("k"), J()])])]),
+            "tuple-of-one-list": Lt([Lt([])])}[junk]
+
+
+BARE_JUNK = {"bare-int": 5, "none": None, "string": "abc", "object": object(), "dict": {"a": 1}}
+
+
+def coll_py(t, w, rng, bare=None):
+    if t[0] == "O":
+        return w[t[1]]
+    if t[0] == "J":
+        return bare if bare is not None else rng.choice([1, "abc", None, 2.5, object(), {"a": 1}, len])
+    xs = [coll_py(x, w, rng) for x in t[1]]
+    return tuple(xs) if rng.random() < 0.3 else xs
+
+
+def coll_enc(t):
+    if t[0] == "O":
+        i, k = COLL_IDS[t[1]]
+        return f"O {i} {k}"
+    if t[0] == "J":
+        return "J"
+    return " ".join([f"L {len(t[1])}"] + [coll_enc(x) for x in t[1]])
+
+
+def coll_show(t):
+    return t[1] if t[0] == "O" else "<junk>" if t[0] == "J" else "[" + ", ".join(coll_show(x) for x in t[1]) + "]"
+
+
 def collset_value(junk, attr, w, rng):
-    good = {"children": [w["s5"], w["x5"], w["k"]], "sources": [w["s5"]], "sensors": [w["x5"]], "collections": [w["k"]]}[attr]
-    junk_obj = rng.choice([1, "abc", None, 2.5, object(), {"a": 1}, (1, 2, 3)])
-    return {"one-junk-entry": [junk_obj], "junk-last": good + [junk_obj], "junk-first": [junk_obj] + good, "bare-int": 5, "none": None, "string": "abc",
-            "self": good + [w["c"]], "ancestor": good + [w["p"]], "duplicate": good + good[:1], "nested-junk": [good, [good[0], 7]], "object": object(),
-            "dict": {"a": w["s5"]}, "steal-then-junk": [w["s4"], w["x4"], w["o"], junk_obj], "sub-then-self": [w["sub"], w["c"]], "valid": good,
-            "valid-empty": [], "valid-steal": [w["s4"], w["x4"]] if attr in ("children",) else good,
-            "wrong-type-only": {"children": good, "sources": [w["x5"]], "sensors": [w["s5"]], "collections": [w["s5"], w["x5"]]}[attr]}[junk]
+    return coll_py(collset_tree(junk, attr), w, rng, BARE_JUNK.get(junk))
+
+
+def collval_real(case, rng, magpy):
+    """assign the tree to c.children / c.collections: error kind, or the identity numbers of the resulting children / sub-collections;
+    a refused assignment must also leave the whole forest as it was"""
+    _, attr, tree = case
+    w = collset_world(magpy)
+    before = collset_state(w)
+    ids = {id(o): COLL_IDS[n][0] for n, o in w.items() if n in COLL_IDS}
+    try:
+        setattr(w["c"], attr, coll_py(tree, w, rng))
+    except Exception as e:  # pylint: disable=broad-except
+        return kind(e) + ("" if collset_state(w) == before else " (state differs after the refused assignment)")
+    return " ".join(["ok"] + [str(ids.get(id(o), "?")) for o in getattr(w["c"], attr)])
+
+
+def coll_tree_gen(rng, depth=2):
+    r = rng.random()
+    if depth == 0 or r < 0.45:
+        return J() if rng.random() < 0.15 else O(rng.choice(sorted(COLL_IDS)))
+    return ("L", [coll_tree_gen(rng, depth - 1) for _ in range(rng.choice([0, 1, 1, 2, 2, 3, 4]))])
 
 
 def collset_real(case, rng, magpy):
@@ -261,6 +329,8 @@ def run_real(case, rng, world):
             return "ok"
         if cmd == "collset":
             return collset_real(case, rng, magpy)
+        if cmd == "collval":
+            return collval_real(case, rng, magpy)
         if cmd == "missing":
             cls, dim_none, exc_none = case[1:4]
             ctor = getattr(magpy.magnet, cls, None) or getattr(magpy.current, cls, None) or getattr(magpy.misc, cls)
@@ -297,12 +367,16 @@ def line(case):
         return f"valid stylector {style_enc(case[1])} {int(case[2])} {int(case[3])} {case[4] or '-'}"
     if cmd == "collset":
         return f"valid setterform BaseCollection {case[1]}"
+    if cmd == "collval":
+        return f"valid collval {case[1]} {coll_enc(case[2])}"
     if cmd == "missing":
         return f"valid missing {case[1]} {int(case[2])} {int(case[3])}"
     raise ValueError(cmd)
 
 
 def describe(case):
+    if case[0] == "collval":
+        return f"c.{case[1]} = {coll_show(case[2])}"
     out = []
     for x in case[1:]:
         if isinstance(x, tuple) and x and x[0] in ("N", "NC", "OP", "F") and case[0] in ("fieldfunc", "setfieldfunc"):
@@ -369,6 +443,8 @@ def run_stream(ctx, n):
               if not (c == "CustomSource" and (dn or en)) and not (c == "Dipole" and dn)]
     # junk assigned to the four collection setters of a populated collection: the whole forest before / after
     cases += [("collset", at, j) for at in COLL_ATTRS for j in JUNK]
+    # the same values through the model of the children / collections setters (repo fix 045b334): error kind or the resulting identities
+    cases += [("collval", at, collset_tree(j, at)) for at in ("children", "collections") for j in JUNK]
     n_fixed = len(cases)
     for _ in range(n):
         r = rng.random()
@@ -390,8 +466,10 @@ def run_stream(ctx, n):
             nm = rng.random() < 0.8
             d = rng.choice([None, None, "AttributeError", "AssertionError", "ValueError"]) if (has_kw and nm and not (a[0] == "D" and a[1])) else None
             cases.append(("stylector", a, has_kw, nm, d) if rng.random() < 0.6 else ("stylesetter", a))
-        elif r < 0.95:
+        elif r < 0.92:
             cases.append(("collset", rng.choice(COLL_ATTRS), rng.choice(JUNK)))
+        elif r < 0.97:
+            cases.append(("collval", rng.choice(["children", "collections"]), coll_tree_gen(rng)))
         else:
             c = rng.choice(sorted(SRC_KW))
             dn, en = rng.random() < 0.4, rng.random() < 0.4
@@ -422,7 +500,7 @@ def run_stream(ctx, n):
                     fk[f"{c[1]}={c[2]}: {real.split()[-1]}"] = fk.get(f"{c[1]}={c[2]}: {real.split()[-1]}", 0) + 1
                     real = "all-or-nothing"
             pc = stats["per_command"].setdefault(c[0], {"ok": 0, "bad": 0, "missing": 0, "foreign": 0, "late": 0})
-            pc["ok" if real.startswith("ok") else "bad" if real.startswith("err bad") else "missing" if real == "err missing" else "late" if real.startswith(("late", "err later")) else "foreign"] += 1
+            pc["ok" if real.startswith(("ok", "all-or-nothing")) else "bad" if real.startswith("err bad") else "missing" if real == "err missing" else "late" if real.startswith(("late", "err later")) else "foreign"] += 1
             seen.add((c[0], model, line(c)))
             if real != model:
                 stats["disagreements"] += 1
